@@ -1,1 +1,2 @@
 //! Shared helpers for the driver-level checks (bins under src/bin).
+pub mod baton; // C19-B: E-THREAD baton scheduler (two OS threads at hooked yield points)
